@@ -19,9 +19,9 @@ RULE = ('full product of shapes x charge-vector pairs over a 3-letter alphabet x
         '{complex,real,rankdef,degenerate,dyadic,zero} x tolerance set (incl. exact cumulative weights 1/4,1/2,3/4 of dyadic spectra); '
         'two-site tensor split over d0,d1,D0,D2 in {1,2} x charges x 3 distributions; non-trivial = non-zero matrix with a shared charge')
 BUDGET = {'quick': 400, 'thorough': 3000}
-KINDS = ['complex', 'real', 'rankdef', 'degenerate', 'dyadic', 'zero', 'tiny', 'large']
+KINDS = ['complex', 'real', 'rankdef', 'zeroblock', 'degenerate', 'dyadic', 'wide', 'zero', 'tiny', 'large']
 SCALES = {'tiny': 2.0 ** -60, 'large': 2.0 ** 60}
-TOLS = [0.0, 1e-12, 0.1, 0.25, 0.5, 0.75, 0.9, 0.2499, 0.2501]
+TOLS = [0.0, 1e-20, 1e-12, 0.1, 0.25, 0.5, 0.75, 0.9, 0.2499, 0.2501]
 DELTA = 1e-12
 
 
